@@ -248,7 +248,7 @@ def run_case(case):
                 sc = max(1.0, float(np.abs(w).max()) * scale)
                 margin = max(margin, e / (tol * sc * 8))
                 maxima[f"constant-value:{dtype}"] = max(maxima.get(f"constant-value:{dtype}", 0.0), e / (tol * sc * 8))
-                if e > tol * sc * 8:
+                if not (e <= tol * sc * 8):  # NaN-safe
                     viol.append(dict(sig="constant-weights-value-mismatch", cls="constvalue",
                                      msg=f"{P.prog_str(prog, outs)} | {sig_cfg} | leaf {l}: got {delta[l].tolist()} expected "
                                          f"{exp[off:off + n].tolist()}"[:900], cfg=sig_cfg))
